@@ -286,7 +286,62 @@ def run(ses, rep):
         # no write at all in format_file: files are never updated -> "every other selected file is still formatted" fails
         flagged.append(("format_file/no-write-site", "format_file contains no file write", "unformatted-or-broken"))
     flagged += lib_verification(ses, rep)
+    flagged += terminators(ses, rep, funcs)
+    # "the exit status is 2": one step of the output thread for a failing file, from any status (shared with C13)
+    from . import c13
+    st_flags = [f for f in c13.status_step(ses, rep, funcs) if "/Err/" in f[0]]
     confirm(rep, flagged)
+    c14_scen = dict(c13.SCENARIOS)
+    c14_scen.update(WRITE_STATUS)
+    confirm(rep, [(a, b, "write-status", fl) for a, b, _k, fl in st_flags], c14_scen, {"write-status": list(WRITE_STATUS), "any": list(WRITE_STATUS)}, "C14")
+
+
+WRITE_STATUS = {
+    "write-broken-status": ({"a.lua": clireplay.UNFORMATTED, "bad.lua": clireplay.BROKEN}, ["a.lua", "bad.lua"],
+                            lambda r: ("exit status is %d, not 2, although a file failed to parse" % r["rc"] if r["rc"] != 2 else None)),
+    "write-unreadable-status": ({"a.lua": clireplay.UNFORMATTED, "bin.lua": b"\xff\xfe local x = 1\n"}, ["a.lua", "bin.lua"],
+                                lambda r: ("exit status is %d, not 2, although a file could not be read" % r["rc"] if r["rc"] != 2 else
+                                           "other file not formatted" if r["after"]["a.lua"][0].decode() != clireplay.FORMATTED else None)),
+}
+CRASH = "local   y   =   0xffffffffffffffff\n"      # AstVerifier panics on a hex literal wider than i64 under --verify (pinned tree)
+
+
+def terminators(ses, rep, funcs):
+    """a crash in one worker must not stop the others: process::exit / abort only at the end of main, no panic hook that exits"""
+    bad = []
+    sites = []
+    for name, lst in funcs.items():
+        for f in lst:
+            for bb, sts in f.blocks.items():
+                for s_ in sts:
+                    if s_[0] == "call":
+                        c = canon(s_[2])
+                        if re.search(r"(^|::)process::(exit|abort)$", c) or c in ("exit", "abort", "std::process::exit", "std::process::abort"):
+                            sites.append((name, c))
+    rep.extra["process_exit_sites"] = sorted(set(sites))
+    for name, c in sorted(set(sites)):
+        ok = name == "main"
+        r, m = ses.obligation(f"terminators/{name}/{c}", [], z3.BoolVal(not ok), "the process is terminated only at the end of main")
+        if r == "sat":
+            bad.append((f"terminators/{name}/{c}", f"{c} is called from {name}: one failing file can stop the others", "crash"))
+    return bad
+
+
+SCENARIOS_EXTRA = {
+    "crash": ({"a.lua": clireplay.UNFORMATTED, "m.lua": CRASH.replace("\\n", "\n"), "n.lua": clireplay.UNFORMATTED, "z.lua": clireplay.UNFORMATTED},
+              ["--verify", "--num-threads", "1", "a.lua", "m.lua", "n.lua", "z.lua"],
+              lambda r: ("a crash while formatting one file left other files unformatted" if any(
+                  r["after"][k][0].decode() != clireplay.FORMATTED for k in ("a.lua", "n.lua", "z.lua")) else
+                  "crashing file was modified" if clireplay.changed(r, "m.lua", True) else
+                  "exit status is %d, not 2" % r["rc"] if r["rc"] != 2 else None)),
+}
+SCENARIOS.update(SCENARIOS_EXTRA)
+KIND2SCEN["crash"] = ["crash"]
+KIND2SCEN["any"] = KIND2SCEN["any"] + ["crash"]
+
+
+def _unused():
+    pass
 
 
 def lib_verification(ses, rep):
@@ -342,7 +397,8 @@ def replay(path):
     import json
     d = json.load(open(path))
     sc = d["replay"]["scenario"]
-    files, argv, oracle = SCENARIOS[sc]
+    from . import c13
+    files, argv, oracle = {**c13.SCENARIOS, **SCENARIOS, **WRITE_STATUS}[sc]
     argv = d["replay"].get("run", {}).get("argv", argv)
     res = clireplay.run_cli(common.native_build("default"), files, argv)
     v = oracle(res)
